@@ -702,6 +702,93 @@ theorem symStep_inputs (fuel i : Nat) (acc : Engine M × List (List Candle)) (sy
     · refine ⟨?_, by simp⟩
       rw [List.getD_eq_getElem?_getD, List.getElem?_set_ne (by omega), ← List.getD_eq_getElem?_getD]
 
+theorem perMinute_os (fuel : Nat) (sym : Nat) (real : Candle) (rest : List Candle) :
+    ∀ (prev : Option Candle) (e : Engine M) (cands : List Nat), OSame sym e (simulateChunk.perMinute u fuel sym real rest prev e cands) := by
+  induction rest with
+  | nil => intro prev e cands; unfold simulateChunk.perMinute; exact OSame.refl _ _
+  | cons c more ih =>
+    intro prev e cands
+    unfold simulateChunk.perMinute
+    dsimp only
+    split
+    · exact OSame.refl _ _
+    · have key : ∀ cur : Candle, OSame sym e
+          (match matchLoop u fuel e sym cur cands (chunkReselect sym real more) true with
+           | (e1, cur') =>
+             if e1.err.isSome then e1 else
+             simulateChunk.perMinute u fuel sym real more (some c) (setCurrentPrice (addCandle e1 sym 1 c) sym cur'.c)
+               (if e1.log.length = e.log.length then cands else chunkReselect sym real more e1 cur')) := by
+        intro cur
+        have h := matchLoop_os u fuel e sym cur cands (chunkReselect sym real more) true
+        revert h
+        generalize matchLoop u fuel e sym cur cands (chunkReselect sym real more) true = p
+        intro h
+        obtain ⟨e1, c'⟩ := p
+        dsimp only at h ⊢
+        split
+        · exact h
+        · exact OSame.trans h (OSame.trans (OSame.trans (addCandle_os e1 sym 1 c) (OSame.of_ss ⟨rfl, rfl⟩)) (ih _ _ _))
+      exact key _
+
+theorem simulateChunk_os (fuel : Nat) (e : Engine M) (sym : Nat) (cs : List Candle) : OSame sym e (simulateChunk u fuel e sym cs) := by
+  unfold simulateChunk
+  dsimp only
+  split
+  · exact OSame.refl _ _
+  · split
+    · exact fail_os _ _ _
+    · rename_i real hreal
+      have h1 : OSame sym e (if (executingOrders e sym real).length > 0 then
+          simulateChunk.perMinute u fuel sym real cs none e
+            (if (executingOrders e sym real).length > 1 then sortExecutionOrders e (executingOrders e sym real) cs else executingOrders e sym real)
+          else e) := by
+        split
+        · exact perMinute_os u fuel sym real cs _ _ _
+        · exact OSame.refl _ _
+      revert h1
+      generalize (if (executingOrders e sym real).length > 0 then
+          simulateChunk.perMinute u fuel sym real cs none e
+            (if (executingOrders e sym real).length > 1 then sortExecutionOrders e (executingOrders e sym real) cs else executingOrders e sym real)
+          else e) = e1
+      intro h1
+      split
+      · exact h1
+      · split
+        · exact OSame.trans h1 (fail_os _ _ _)
+        · rename_i short' hs
+          have h2 : OSame sym e1 { e1 with stores := upd e1.stores sym (fun s => { s with short := short' }), time := real.ts + 60000 * cs.length } :=
+            ⟨length_upd _ _ _, rfl, fun s hs' => by unfold storeOf; exact getD_upd_ne _ _ _ _ hs'⟩
+          have h3 := OSame.trans h2 (checkLiquidation_os u { e1 with stores := upd e1.stores sym (fun s => { s with short := short' }), time := real.ts + 60000 * cs.length } sym real)
+          split
+          · exact OSame.trans h1 (OSame.trans h3 (OSame.of_ss ⟨rfl, rfl⟩))
+          · exact OSame.trans h1 h3
+
+theorem symSkip_os (fuel i step : Nat) (acc : Engine M × List (List Candle)) (sym : Nat) :
+    OSame sym acc.1 (symSkip u fuel i step acc sym).1 := by
+  unfold symSkip
+  dsimp only
+  split
+  · exact OSame.refl _ _
+  · refine OSame.trans (simulateChunk_os u fuel acc.1 sym
+      (Py.slice (fixedFirst (acc.2.getD sym []) i) (some (i : Int)) (some ((i : Int) + step)))) ?_
+    apply foldl_os
+    intro e tf
+    try dsimp only
+    split
+    · split
+      · exact addCandle_os _ _ _ _
+      · exact fail_os _ _ _
+    · exact OSame.refl _ _
+
+theorem symSkip_inputs (fuel i step : Nat) (acc : Engine M × List (List Candle)) (sym s : Nat) (hs : s ≠ sym) :
+    (symSkip u fuel i step acc sym).2.getD s [] = acc.2.getD s [] ∧ (symSkip u fuel i step acc sym).2.length = acc.2.length := by
+  unfold symSkip
+  dsimp only
+  split
+  · exact ⟨rfl, rfl⟩
+  · refine ⟨?_, by simp⟩
+    rw [List.getD_eq_getElem?_getD, List.getElem?_set_ne (by omega), ← List.getD_eq_getElem?_getD]
+
 end os
 
 end StoreFrame
